@@ -1046,6 +1046,8 @@ _F = 'chainables/io.py'
 _T = 'chainables/transform.py'
 _U = 'utils/iter_utils.py'
 VARIANTS = [
+    OK('restored-flag-through-a-local', 'chainables/transform.py',
+       "        with_agg_result=self._with_agg_result,\n        # Only its truthiness is used", "        with_agg_result=bool(self._with_agg_result),\n        # Only its truthiness is used"),
     B('restored-iterator-drops-its-aggregate-result-flag', 'chainables/transform.py',
       "        with_agg_result=self._with_agg_result,\n        # Only its truthiness is used", "        with_agg_result=self._with_agg_result and self._with_result,\n        # Only its truthiness is used", 'R-C10-19'),
     B('skip-wrapper-gives-up-after-many-failures', 'utils/iter_utils.py',
